@@ -1,14 +1,14 @@
 (* Properties_C19.v — value semantics and allocator hygiene: the bookkeeping part (effect ledger).
    Statements only; proofs live in LedgerCoreProofs.v, LedgerKllProofs.v, LedgerTupProofs.v, LedgerProofs.v.
-   [reach o]: o is an object of one of the three modelled families (KLL items_, theta/tuple entries_, frequent-items
-   keys_/values_/states_) produced by ANY history of construction, update, copy construction, copy assignment (incl.
+   [reach o]: o is an object of one of the four modelled families (KLL items_, theta/tuple entries_, frequent-items
+   keys_/values_/states_, REQ compactor items_) produced by ANY history of construction, update, copy construction, copy assignment (incl.
    self-assignment), merge by reference / by move, reset, trim (LedgerProofs.reach).  The machine-level theorems
    (C19_step..., C19_run..., C19_destroy_all...) are about LedgerDefs.step / run themselves — the functions extracted
    and run against the C++ harness — for ANY script and ANY environment values (hashes), registers, moves, swaps and
    follow-ups included.  "aborted": the model reached one of its Abort outcomes at that step (a postcondition the C++
    relies on without checking — general_compress space bound, map resize/purge/iterator consistency — failed). *)
 From Coq Require Import ZArith NArith List Bool Lia.
-From DS Require Import RunnerLib LedgerCore LedgerCoreProofs LedgerKll LedgerKllProofs LedgerTup LedgerTupProofs LedgerFi LedgerFiProofs LedgerDefs LedgerProofs LedgerMachineProofs.
+From DS Require Import RunnerLib LedgerCore LedgerCoreProofs LedgerKll LedgerKllProofs LedgerTup LedgerTupProofs LedgerFi LedgerFiProofs LedgerReq LedgerReqProofs LedgerVo LedgerVoProofs LedgerDefs LedgerProofs LedgerMachineProofs.
 Import ListNotations.
 Local Open Scope Z_scope.
 
@@ -105,7 +105,9 @@ Definition demo : list opline :=
    ([1; 2; 1; 5; 1], [])] ++ map (fun i => ([2; 2; Z.of_nat i; 1; 0], [Z.of_nat (1000 + 7 * i)])) (seq 0 40) ++
   [([5; 2; 2], []); ([9; 2], []); ([1; 3; 2; 4; 3], [])] ++
   map (fun i => ([2; 3; Z.of_nat i; 1 + Z.of_nat (i mod 3); 0], [Z.of_nat (i * 7 + 3)])) (seq 0 30) ++
-  [([3; 4; 3], []); ([7; 4; 3], []); ([8; 3; 4; 0; 0], []); ([99], [])].
+  [([3; 4; 3], []); ([7; 4; 3], []); ([8; 3; 4; 0; 0], []); ([1; 5; 3; 4; 1], [2])] ++
+  map (fun i => ([2; 5; Z.of_nat i; 1; 0], [])) (seq 0 70) ++
+  [([3; 6; 5], []); ([7; 6; 5], []); ([8; 5; 6; 0; 0], []); ([99], [])].
 
 Example C19_nonvacuous :
   forallb (fun out => match fst out with [_; _; _; _; flag] => Z.eqb flag 0 | _ => false end) (run demo) = true /\
